@@ -7,6 +7,7 @@ import (
 	"fmt"
 	"mime"
 	"net/http"
+	"net/url"
 	"path"
 	"strconv"
 	"strings"
@@ -65,7 +66,8 @@ func (h *Handler) ServeHTTP(w http.ResponseWriter, r *http.Request) {
 			return
 		}
 
-		http.Redirect(w, r, principalPath, http.StatusPermanentRedirect)
+		// principalPath is a path, not a URL: escape it for the Location header
+		http.Redirect(w, r, (&url.URL{Path: principalPath}).String(), http.StatusPermanentRedirect)
 		return
 	}
 
